@@ -222,6 +222,92 @@ RefsFollow(o, cx, ev, res, o2, cx2) ==
              LET t == Designated(o, cx, m, r) IN
              (t # 0 /\ t \in sub /\ TIsRefText(o2, r)) => Designated(o2, cx2, m2, r) = t
 
+\* ---------------------------------------------------------------------------------------------- C13 (action)
+ChildAllowed(k, name, v) == \E i \in 1..Len(Schema[k].children) :
+                               Schema[k].children[i].name = name /\ (\E j \in 1..Len(Schema[k].children[i].mask) : Schema[k].children[i].mask[j] = v)
+AttrAllowed(k, a, v) ==
+  \E i \in 1..Len(Schema[k].attrs) :
+     LET sp == Schema[k].attrs[i] IN
+     /\ sp.name = a.n
+     /\ (\E j \in 1..Len(sp.mask) : sp.mask[j] = v)
+     /\ (sp.spec.k = "Enum" /\ a.v.k = "e") =>
+           \E q \in 1..Len(sp.spec.items) : sp.spec.items[q].i = a.v.v /\ (\E j \in 1..Len(sp.spec.items[q].mask) : sp.spec.items[q].mask[j] = v)
+\* canonical form of a subtree: kinds, attributes, comments, values, in order -- no node identities.
+\* filt = TRUE: only what is permitted in version v;  wild = TRUE: the item name of the root is replaced by "*"
+\* an element is itself "not permitted" in version v when its enumeration value does not exist there, or when an
+\* attribute it must have is not permitted there
+CdOk(o, i, v) ==
+  \A j \in 1..Len(OCont(o, i)) :
+     LET c == OCont(o, i)[j] IN
+     (c.t = "c" /\ OKindRec(o, i).cdata.k = "Enum") =>
+        (c.v.k = "e" /\ \E q \in 1..Len(OKindRec(o, i).cdata.items) :
+            OKindRec(o, i).cdata.items[q].i = c.v.v /\ (\E z \in 1..Len(OKindRec(o, i).cdata.items[q].mask) : OKindRec(o, i).cdata.items[q].mask[z] = v))
+ReqAttrOk(o, i, v) ==
+  \A j \in 1..Len(o.n[i].at) :
+     LET a == o.n[i].at[j] IN
+     AttrAllowed(o.n[i].k, a, v) \/ ~(\E q \in 1..Len(OKindRec(o, i).attrs) : OKindRec(o, i).attrs[q].name = a.n /\ OKindRec(o, i).attrs[q].req)
+Copyable(o, i, v) == OKnown(o, i) /\ CdOk(o, i, v) /\ ReqAttrOk(o, i, v)
+RECURSIVE Canon(_, _, _, _, _, _)
+Canon(o, i, filt, v, wild, fuel) ==
+  LET k == o.n[i].k
+      A == o.n[i].at
+      C == OCont(o, i)
+      keepA == SelectSeq(A, LAMBDA a : ~filt \/ AttrAllowed(k, a, v))
+      keepC == SelectSeq(C, LAMBDA c : c.t = "c" \/ ~filt \/ (ChildAllowed(k, OName(o, c.id), v) /\ Copyable(o, c.id, v))) IN
+  [k |-> k, at |-> keepA, cmt |-> o.n[i].cmt,
+   items |-> [j \in 1..Len(keepC) |->
+                IF keepC[j].t = "c" THEN [t |-> "c", x |-> keepC[j].v]
+                ELSE IF wild /\ j = 1 /\ OName(o, keepC[j].id) = "SHORT-NAME" THEN [t |-> "e", x |-> "*"]
+                ELSE IF fuel = 0 THEN [t |-> "e", x |-> "..."]
+                ELSE [t |-> "e", x |-> Canon(o, keepC[j].id, filt, v, FALSE, fuel - 1)]]]
+SuffixNameP(orig, k) == IF k = 0 THEN orig ELSE orig \o "_" \o ToString(k)
+CopyFaithful(o, cx, ev, res, o2, cx2) ==
+  (ev.op = "Copy" /\ res.t = "ok" /\ ev.c \in cx.all /\ OKnown(o, ev.c) /\ o.n[ev.p].minv.t = "ok") =>
+     LET new == res.v
+         v == o.n[ev.p].minv.v
+         m == ModelOf(o, cx, ev.p)
+         D == PSeqToSet(ODfs(o2, new)) IN
+     /\ Canon(o2, new, FALSE, v, TRUE, Fuel(o2)) = Canon(o, ev.c, TRUE, v, TRUE, Fuel(o))
+     /\ \A x \in D : x > Len(o.n)                       \* no node object is shared with the source
+     /\ TNameOf(o, ev.c) # <<>> =>
+           LET orig == TNameOf(o, ev.c)[1]
+               pp == TPath(o, ev.p)
+               taken == \E t \in cx.truth[m] : t[1] = pp \o <<orig>> IN
+           /\ TNameOf(o2, new) # <<>>
+           /\ IF taken THEN \E q \in 1..9 : TNameOf(o2, new)[1] = SuffixNameP(orig, q) ELSE TNameOf(o2, new)[1] = orig
+\* ... "and still validates": the destination's files re-load without any version complaint they did not have before
+VersionKinds == {"ElementVersionError", "AttributeVersionError", "EnumItemVersionError"}
+CopyStillValidates(o, cx, ev, res, o2, cx2) ==
+  (ev.op = "Copy" /\ res.t = "ok") =>
+     LET m == ModelOf(o2, cx2, res.v) IN
+     m # 0 => \A j \in 1..Len(o2.models[m].files) :
+                LET g == o2.models[m].files[j] IN
+                (g <= Len(o.f) /\ "ser" \in DOMAIN o.f[g] /\ "ser" \in DOMAIN o2.f[g]) =>
+                   (PSeqToSet(o2.f[g].ser.warnk) \cap VersionKinds) \subseteq (PSeqToSet(o.f[g].ser.warnk) \cap VersionKinds)
+TreeFields(o, i) == [k |-> o.n[i].k, par |-> o.n[i].par, cont |-> o.n[i].cont, at |-> o.n[i].at, cmt |-> o.n[i].cmt, fm |-> o.n[i].fm]
+CopySourceUnchanged(o, cx, ev, res, o2, cx2) ==
+  (ev.op = "Copy" /\ res.t = "ok") => \A i \in 1..Len(o.n) : i # ev.p => TreeFields(o2, i) = TreeFields(o, i)
+ModelView(o, m) == [root |-> o.models[m].root, files |-> o.models[m].files, idx |-> o.models[m].idx, refo |-> o.models[m].refo,
+                    dfs |-> o.models[m].dfs, broken |-> o.models[m].broken]
+ModelsIndependent(o, cx, ev, res, o2, cx2) ==
+  LET touched == (IF ev.p # 0 THEN {ModelOf(o, cx, ev.p)} ELSE {}) \cup (IF ev.m # 0 THEN {ev.m} ELSE {})
+                 \cup (IF ev.op = "Move" THEN {ModelOf(o, cx, ev.c)} ELSE {}) IN
+  \A mm \in OModels(o) :
+     (mm \notin touched /\ mm \in OModels(o2)) =>
+        /\ ModelView(o2, mm) = ModelView(o, mm)
+        /\ \A i \in cx.reach[mm] : TreeFields(o2, i) = TreeFields(o, i)
+\* a duplicated model serializes each file to exactly the text of the original
+DuplicateSameText(o, cx, ev, res, o2, cx2) ==
+  (ev.op = "Duplicate" /\ res.t = "ok") =>
+     LET m == ev.m
+         d == res.v IN
+     /\ d \in OModels(o2) /\ Len(o2.models[d].files) = Len(o.models[m].files)
+     /\ \A j \in 1..Len(o.models[m].files) :
+          LET f == o.models[m].files[j]
+              g == o2.models[d].files[j] IN
+          /\ o2.f[g].name = o.f[f].name /\ o2.f[g].ver = o.f[f].ver
+          /\ ("ser" \in DOMAIN o.f[f] /\ "ser" \in DOMAIN o2.f[g]) => (o2.f[g].ser.h = o.f[f].ser.h /\ o2.f[g].ser.els = o.f[f].ser.els)
+
 \* everything derived from the tree that several predicates need, computed once per observation
 Ctx(o) ==
   LET R == [m \in OModels(o) |-> OReach(o, m)] IN
@@ -240,7 +326,10 @@ ActionPropsCx(o, cx, ev, res, o2, cx2) ==
    NoPanicNoHangNoSpuriousLock |-> NoPanicNoHangNoSpuriousLock(o, ev, res, o2),
    StaleCallsFail |-> StaleCallsFail(o, cx, ev, res, o2),
    RefsFollow |-> RefsFollow(o, cx, ev, res, o2, cx2),
-   RemoveFileExact |-> RemoveFileExact(o, cx, ev, res, o2, cx2)]
+   RemoveFileExact |-> RemoveFileExact(o, cx, ev, res, o2, cx2),
+   CopyFaithful |-> CopyFaithful(o, cx, ev, res, o2, cx2), CopyStillValidates |-> CopyStillValidates(o, cx, ev, res, o2, cx2),
+   CopySourceUnchanged |-> CopySourceUnchanged(o, cx, ev, res, o2, cx2),
+   ModelsIndependent |-> ModelsIndependent(o, cx, ev, res, o2, cx2), DuplicateSameText |-> DuplicateSameText(o, cx, ev, res, o2, cx2)]
 ActionProps(o, ev, res, o2) == ActionPropsCx(o, Ctx(o), ev, res, o2, Ctx(o2))
 PropertyOf(p) ==
   CASE p \in {"TreeOK", "NavigationAgrees", "StaleHandlesInert", "StaleCallsFail"} -> "C03"
